@@ -439,6 +439,39 @@ def run(prog: Program) -> Results:
                                 f"{g.key}: the branch that consumes `{norm(reads[0])}` runs only when `{p_}` is {when}, but every call "
                                 f"passes {sorted(vals)} (recursive calls hand the flag through): comments stored on nested nodes are "
                                 f"never rendered")
+    # ---------------------------------------------------------------- R-C03-10 stable partition by `inline` keeps source order
+    r10 = res.rule("R-C03-10", "comments split by their `inline` flag (split_inline_comments renders the inline part first, right after "
+                   "the keyword) keep their order only if the flagged ones form a leading run: the collector sets `inline` under a "
+                   "latch that goes false at the first comment that is not inline (`run = run and same_row`), never relative to "
+                   "whatever comment came before", floor=1)
+    for f in prog.all_functions():
+        if "allow_inline" not in f.params():
+            continue
+        stores = [n for n in walk_no_nested(f.node) if isinstance(n, ast.Assign) and isinstance(n.targets[0], ast.Attribute)
+                  and n.targets[0].attr == "inline" and is_const(n.value, True)]
+        loops = [l for l in walk_no_nested(f.node) if isinstance(l, ast.For)]
+        for st in stores:
+            loop = next((l for l in loops if any(st is x for x in ast.walk(l))), None)
+            if loop is None:
+                continue
+            r10.instances += 1
+            fcfg = CFG(f.node)
+            latches = set()
+            for d in ast.walk(loop):
+                if isinstance(d, ast.Assign) and isinstance(d.targets[0], ast.Name) and isinstance(d.value, ast.BoolOp) and isinstance(d.value.op, ast.And) \
+                        and any(isinstance(v, ast.Name) and v.id == d.targets[0].id for v in d.value.values):
+                    latches.add(d.targets[0].id)
+            from sa.cfg import edges_establishing as _ee
+            e = _ee(fcfg, lambda a, t: isinstance(a, ast.Name) and a.id in latches and t is True)
+            node = fcfg.containing(st)
+            ok = bool(latches) and bool(e) and node is not None and fcfg.all_paths_pass(node, cut_edges=e)
+            r10.ob(ok, {"collector": f.key, "latch": sorted(latches)})
+            if not ok:
+                res.add("R-C03-10", (f.key, "inline flag relative to the previous comment"), f.loc(st),
+                        f"{f.key}: `{norm(st)}` is decided by comparing rows with the previous item, which may itself be an own-line "
+                        f"comment: in `then\\n  /* first */ /* second */\\n  b` the second comment is marked inline, split_inline_comments "
+                        f"moves it in front of the first (`then /* second */\\n/* first */`), and after a `# eol` comment it is absorbed "
+                        f"into that line comment")
     res.tables.append(f"sa/tables/grammar.py: {len(PRODUCTIONS)} productions, {len(GENERIC_CLASSES)} generic walkers")
     res.assumptions = ["relative order of two comments routed into different slots of the same gap is a value-level fact and is not decided"]
     return res
